@@ -182,6 +182,28 @@ func init() {
 			fr.x.reached["__fprintf__"] = true
 			return Tuple{fr.x.f.Const(64, 0), Iface{}}
 		},
+		"fmt.Fprint": func(fr *frame, a []Value) Value {
+			// only string operands (what the code under test passes): written verbatim
+			x := fr.x
+			var out []*Term
+			for _, e := range a[1].(Slice).v {
+				itf := e.(Iface)
+				s, ok := itf.v.(Str)
+				if !ok {
+					abortf("fmt.Fprint of a non-string operand (%v)", itf.t)
+				}
+				out = append(out, s.b...)
+			}
+			w := a[0].(Iface)
+			if w.t == nil {
+				x.runtimePanic(fr, "invalid memory address or nil pointer dereference (nil io.Writer)")
+			}
+			m := x.eng.prog.LookupMethod(w.t, nil, "Write")
+			if m == nil {
+				abortf("fmt.Fprint: no Write method on %v", w.t)
+			}
+			return x.callSSA(fr, fr.curInstr, m, []Value{w.v, x.sliceOfBytes(out, 0)}, nil)
+		},
 		"fmt.Fprintln": func(fr *frame, a []Value) Value {
 			return Tuple{fr.x.f.Const(64, 0), Iface{}}
 		},
